@@ -167,6 +167,12 @@ impl ChunkStateMmapper {
     fn get_state(&self, chunk: Address) -> MapState {
         self.storage.get_state(chunk)
     }
+
+    /// 0 = unmapped, 1 = quarantined, 2 = mapped
+    #[cfg(mmtk_verif)]
+    pub fn verif_chunk_state(&self, chunk: Address) -> u8 {
+        self.storage.get_state(chunk) as u8
+    }
 }
 
 impl Mmapper for ChunkStateMmapper {
